@@ -17,6 +17,41 @@ import (
 
 type applyCall struct{ args []any }
 
+// aplFn: the callbacks of the seq engine plus three that only this engine uses (their Lean counterparts are in
+// lean/Driver/Apl.lean): results of mixed kinds, and column-wise results longer / shorter than the column.
+func aplFn(tag int) dataframe.FuncType {
+	switch tag {
+	case 10:
+		return func(xs []any) any {
+			if len(xs) == 0 || xs[0] == nil {
+				return "n/a"
+			}
+			if _, isText := xs[0].(string); isText {
+				return "n/a"
+			}
+			out := make([]any, len(xs))
+			copy(out, xs)
+			return out
+		}
+	case 11:
+		return func(xs []any) any {
+			out := make([]any, len(xs), len(xs)+1)
+			copy(out, xs)
+			return append(out, 7)
+		}
+	case 12:
+		return func(xs []any) any {
+			out := make([]any, len(xs))
+			copy(out, xs)
+			if len(out) > 0 {
+				out = out[:len(out)-1]
+			}
+			return out
+		}
+	}
+	return applyFn(tag)
+}
+
 func genApl(r *Rng, tier string) *Enc {
 	e := NewEnc()
 	n := r.Intn(5)
@@ -44,8 +79,14 @@ func genApl(r *Rng, tier string) *Enc {
 	} else if r.Chance(15) {
 		tag = 9 // appends one element to its argument and returns the longer slice
 	}
+	if axis == 1 && r.Chance(15) {
+		tag = 10 // mixed result kinds: a single marker for rows starting with nil or text, the whole row otherwise
+	}
 	if axis == 0 {
 		tag = r.Intn(8)
+		if r.Chance(25) {
+			tag = Pick(r, []int{10, 11, 12}) // column-wise: mixed kinds, a longer slice, a shorter slice
+		}
 	}
 	e.Tok("F")
 	e.Frame(df)
@@ -58,7 +99,7 @@ func genApl(r *Rng, tier string) *Enc {
 	var mu sync.Mutex
 	var calls []applyCall
 	var argMutated atomic.Int32
-	base := applyFn(tag)
+	base := aplFn(tag)
 	fn := func(xs []any) any {
 		cp := make([]any, len(xs))
 		copy(cp, xs)
